@@ -4,6 +4,7 @@
 import os, sys
 sys.path.insert(0, os.path.dirname(os.path.abspath(__file__)))
 import dispatch_ext as _de
+from derived_common import newtype_items, INT_SHIMS
 
 F_EXT = "src/tls_extensions.rs"
 _types = [it for it in _de.UNIT["items"] if it["kind"] in ("struct", "enum", "newtype_enum")]
@@ -39,6 +40,18 @@ pub open spec fn sct_ext_post(i: Seq<u8>, r: IResult<&[u8], TlsExtension>) -> bo
             else { d is None && rem@ =~= i },
         _ => false,
     }
+}
+// encrypted_server_name (draft-ietf-tls-esni): cipher suite u16, named group u16, key_share<u16>, record_digest<u16>, encrypted_sni<u16>
+pub open spec fn fld16_ok(i: Seq<u8>, o: int) -> bool { 0 <= o && i.len() >= o + 2 && i.len() >= o + 2 + be16s(i, o) }
+pub open spec fn fld16_next(i: Seq<u8>, o: int) -> int { o + 2 + be16s(i, o) }
+pub open spec fn esni_post(i: Seq<u8>, r: IResult<&[u8], TlsExtension>) -> bool {
+    let o1 = fld16_next(i, 4); let o2 = fld16_next(i, o1); let o3 = fld16_next(i, o2);
+    if i.len() < 4 || !fld16_ok(i, 4) || !fld16_ok(i, o1) || !fld16_ok(i, o2) { is_incomplete(r) }
+    else { match r {
+        Ok((rem, TlsExtension::EncryptedServerName { ciphersuite, group, key_share, record_digest, encrypted_sni })) =>
+            ciphersuite.0 as int == be16s(i, 0) && group.0 as int == be16s(i, 2) && key_share@ =~= i.subrange(6, o1)
+            && record_digest@ =~= i.subrange(o1 + 2, o2) && encrypted_sni@ =~= i.subrange(o2 + 2, o3) && rem@ =~= i.subrange(o3, i.len() as int),
+        _ => false } }
 }
 '''
 
@@ -77,6 +90,7 @@ def empty(fn, variant):
 
 UNIT = {
     "name": "ext_contents",
+    "needs_expanded": True,
     "property": ["C05", "C11", "C06", "C01"],
     "prelude": ["shim_nom.rs"],
     "items": _types + [
@@ -102,6 +116,17 @@ UNIT = {
                    (r"fn parse_tls_extension_signed_certificate_timestamp_content\(\s*i: &\[u8\],?\s*\) -> IResult<&\[u8\], TlsExtension>", "fn parse_tls_extension_signed_certificate_timestamp_content<'a>(i: &'a [u8]) -> IResult<&'a [u8], TlsExtension<'a>>")],
          "splices": [{"at_start": True, "text": "    proof { reveal_with_fuel(be_val, 3); axiom_be_fun(); assert(be_post(2, i@, fun_of(be_u16)(i), |v: u16| v as int)); }"}],
          "contract": "    ensures sct_ext_post(i@, r),"},
+        {"file": "-", "kind": "inline", "name": "int-shims", "text": INT_SHIMS},
+    ] + newtype_items("NamedGroup", 2) + [
+        {"file": F_EXT, "kind": "fn", "name": "parse_tls_extension_encrypted_server_name", "rlimit": 60,
+         "subst": [(r"map\(be_u16, TlsCipherSuiteID\)\(i\)\?", "map(be_u16, |x: u16| -> (y: TlsCipherSuiteID) ensures y == TlsCipherSuiteID(x) { TlsCipherSuiteID(x) })(i)?")],
+         "splices": [{"at_start": True, "text": "    let ghost i0 = i@;\n    proof { reveal_with_fuel(be_val, 3); }"},
+                     {"after": r"let \(i, ciphersuite\) = [^;]*;", "text": "    proof { assert(ciphersuite.0 as int == be16s(i0, 0)); assert(i@ =~= i0.subrange(2, i0.len() as int)); }"},
+                     {"after": r"let \(i, group\) = [^;]*;", "text": "    proof { assert(group.0 as int == be16s(i0, 2)); assert(i@ =~= i0.subrange(4, i0.len() as int)); }"},
+                     {"after": r"let \(i, key_share\) = [^;]*;", "text": "    let ghost o1: int = fld16_next(i0, 4);\n    proof { assert(fld16_ok(i0, 4)); assert(key_share@ =~= i0.subrange(6, o1)); assert(i@ =~= i0.subrange(o1, i0.len() as int)); }"},
+                     {"after": r"let \(i, record_digest\) = [^;]*;", "text": "    let ghost o2: int = fld16_next(i0, o1);\n    proof { assert(fld16_ok(i0, o1)); assert(record_digest@ =~= i0.subrange(o1 + 2, o2)); assert(i@ =~= i0.subrange(o2, i0.len() as int)); }"},
+                     {"after": r"let \(i, encrypted_sni\) = [^;]*;", "text": "    let ghost o3: int = fld16_next(i0, o2);\n    proof { assert(fld16_ok(i0, o2)); assert(encrypted_sni@ =~= i0.subrange(o2 + 2, o3)); assert(i@ =~= i0.subrange(o3, i0.len() as int)); }"}],
+         "contract": "    ensures esni_post(i@, r),"},
         empty("parse_tls_extension_encrypt_then_mac_content", "EncryptThenMac"),
         empty("parse_tls_extension_extended_master_secret_content", "ExtendedMasterSecret"),
         empty("parse_tls_extension_post_handshake_auth_content", "PostHandshakeAuth"),
